@@ -47,6 +47,9 @@ def gen_shape(rng, W, H, spread):
         pts = ' '.join('%s,%s' % (fnum(cx + size / 2 * math.cos(a)), fnum(cy + size / 2 * math.sin(a)))
                        for a in [rng.uniform(0, 6.28) for _ in range(3 + rng.below(4))])
         return '<polygon points="%s" %s/>' % (pts, style)
+    # thin stroked curves much larger than the canvas are rasterised unstably by tiny-skia (flattening depends on
+    # the clip): keep them canvas-sized
+    size = min(size, 0.6 * max(W, H))
     return ('<path d="M %s %s Q %s %s %s %s T %s %s" fill="none" stroke="%s" stroke-width="%s" stroke-linecap="%s"/>'
             % (fnum(cx - size / 2), fnum(cy), fnum(cx), fnum(cy - size), fnum(cx + size / 2), fnum(cy), fnum(cx + size), fnum(cy),
                rng.choice(COLORS), fnum(rng.choice([1, 3, 8])), rng.choice(['butt', 'round', 'square'])))
